@@ -4,7 +4,7 @@ namespace DaeVerif.C13.TQ
 
 /-- frame for every producer other than the one that moved, when only `prods p`, and possibly
 refs/cpc-free parts, changed -/
-theorem PInv.frame_same {s s' : St} {i : PId} (h : PInv s i) (hp : s'.prods i = s.prods i)
+theorem PInv.frame_same {s s' : St} {i : Nat} (h : PInv s i) (hp : s'.prods i = s.prods i)
     (hnq : s'.nq = s.nq) (hqs : s'.qs = s.qs) (hnch : s'.nch = s.nch) (hpool : s'.pool = s.pool)
     (hch : s'.chans = s.chans) : PInv s' i := by
   apply h.frame hp (by omega) (by intro q _; rw [hqs]) (by omega)
@@ -14,7 +14,7 @@ theorem PInv.frame_same {s s' : St} {i : PId} (h : PInv s i) (hp : s'.prods i = 
   · intro q _; rw [hqs]
 
 /-- a producer step that only moves the producer's program counter -/
-theorem inv_setPc_plain {s : St} (h : Inv s) (p : PId) (hp : p < s.np) (pc' : PPC)
+theorem inv_setPc_plain {s : St} (h : Inv s) (p : Nat) (hp : p < s.np) (pc' : PPC)
     (hold_enq : ∀ q, (s.prods p).pc ≠ .enq q)
     (hnew_q : ∀ q, PcQ pc' q → q < s.nq ∧ (s.qs q).key = (s.prods p).key)
     (hnew_c : ∀ c, PcC pc' c → PcC (s.prods p).pc c)
@@ -80,14 +80,15 @@ theorem inv_setPc_plain {s : St} (h : Inv s) (p : PId) (hp : p < s.np) (pc' : PP
         · simp [hip]; exact c
     · exact g.acc_nodup
 
-/-- transfer of the global facts across a step that creates no queue and no producer and leaves
-the pool alone -/
+/-- transfer of the global facts across a step that creates no queue and no producer -/
 theorem GInv.frame {s s' : St} (g : GInv s)
-    (hnq : s'.nq = s.nq) (hnp : s'.np = s.np) (hnch : s.nch ≤ s'.nch) (hpool : s'.pool = s.pool)
+    (hnq : s'.nq = s.nq)
     (hmap : ∀ k q, s'.map k = some q → s.map k = some q)
     (hkey : ∀ q, (s'.qs q).key = (s.qs q).key) (hch : ∀ q, (s'.qs q).ch = (s.qs q).ch)
     (hex : ∀ q, (s'.qs q).cpc ≠ .exited → (s.qs q).cpc ≠ .exited)
-    (hchans : ∀ c, c ∈ s.pool → s'.chans c = s.chans c)
+    (hpool_lt : ∀ c, c ∈ s'.pool → c < s'.nch)
+    (hpool_nd : s'.pool.Nodup)
+    (hpool_empty : ∀ c, c ∈ s'.pool → s'.chans c = [])
     (hheld : ∀ p p', p < s'.np → p' < s'.np → ∀ c, PcC (s'.prods p).pc c → PcC (s'.prods p').pc c → p = p')
     (hadd : ∀ p p', p < s'.np → p' < s'.np → ∀ q, (s'.prods p).pc = .addRef q →
       (s'.prods p').pc = .addRef q → p = p')
@@ -98,9 +99,9 @@ theorem GInv.frame {s s' : St} (g : GInv s)
   · intro k q hm
     obtain ⟨a, b⟩ := g.map_lt k q (hmap k q hm)
     exact ⟨by rw [hnq]; exact a, by rw [hkey]; exact b⟩
-  · intro c hc; rw [hpool] at hc; exact Nat.lt_of_lt_of_le (g.pool_lt c hc) hnch
-  · rw [hpool]; exact g.pool_nodup
-  · intro c hc; rw [hpool] at hc; rw [hchans c hc]; exact g.pool_empty c hc
+  · exact hpool_lt
+  · exact hpool_nd
+  · exact hpool_empty
   · intro q1 q2 h1 h2 hne e1 e2
     rw [hch, hch]
     exact g.ch_inj q1 q2 (by omega) (by omega) hne (hex q1 e1) (hex q2 e2)
@@ -109,6 +110,15 @@ theorem GInv.frame {s s' : St} (g : GInv s)
   · exact hmain
   · exact hacc
   · exact hnd
+
+/-- the three pool facts when the pool is unchanged (or shrinks) -/
+theorem pool_lt_of {s s' : St} (g : GInv s) (hn : s.nch ≤ s'.nch) (hsub : ∀ c, c ∈ s'.pool → c ∈ s.pool) :
+    ∀ c, c ∈ s'.pool → c < s'.nch :=
+  fun c hc => Nat.lt_of_lt_of_le (g.pool_lt c (hsub c hc)) hn
+
+theorem pool_empty_of {s s' : St} (g : GInv s) (hsub : ∀ c, c ∈ s'.pool → c ∈ s.pool)
+    (hch : ∀ c, c ∈ s.pool → s'.chans c = s.chans c) : ∀ c, c ∈ s'.pool → s'.chans c = [] :=
+  fun c hc => by rw [hch c (hsub c hc)]; exact g.pool_empty c (hsub c hc)
 
 theorem held_uniq_of {s s' : St} (g : GInv s) (hnp : s'.np = s.np)
     (hC : ∀ i c, i < s.np → PcC (s'.prods i).pc c → PcC (s.prods i).pc c) :
@@ -131,9 +141,9 @@ theorem main_frame {s s' : St} (g : GInv s) (ha : s'.accepted = s.accepted) (hd 
   intro k; rw [ha, hd, hp k]; exact g.main k
 
 /-- the pc of producer `p` after `setPc` on any state -/
-theorem setPc_pc_self (s : St) (p : PId) (pc : PPC) : ((setPc s p pc).prods p).pc = pc := by simp
+theorem setPc_pc_self (s : St) (p : Nat) (pc : PPC) : ((setPc s p pc).prods p).pc = pc := by simp
 
-theorem setPc_pc_other (s : St) (p i : PId) (pc : PPC) (h : i ≠ p) :
+theorem setPc_pc_other (s : St) (p i : Nat) (pc : PPC) (h : i ≠ p) :
     (setPc s p pc).prods i = s.prods i := by simp [h]
 
 /-- `acc` when `accepted` is unchanged -/
@@ -147,7 +157,7 @@ theorem acc_frame {s s' : St} (g : GInv s) (ha : s'.accepted = s.accepted) (hnp 
   exact ⟨Nat.lt_of_lt_of_le a hnp, by rw [hk t a]; exact b, hE t a c⟩
 
 /-- CAS success in `acquireQueue`: refs r → r+1, the producer now holds a reference -/
-theorem inv_cas {s : St} (h : Inv s) (p : PId) (hp : p < s.np) (q : QId) (r : Int)
+theorem inv_cas {s : St} (h : Inv s) (p : Nat) (hp : p < s.np) (q : Nat) (r : Int)
     (hpc : (s.prods p).pc = .fastCas q r ∨ (s.prods p).pc = .slowCas q r)
     (hr : (s.qs q).refs = r) :
     Inv (setPc (setRefs s q (r + 1)) p (.enq q)) := by
@@ -269,6 +279,114 @@ theorem inv_cas {s : St} (h : Inv s) (p : PId) (hp : p < s.np) (q : QId) (r : In
       obtain ⟨a, b, c⟩ := g.acc k t ht
       have htp : t ≠ p := by intro e; subst e; exact hnotE c
       refine ⟨a, ?_, ?_⟩ <;> simp [htp] <;> assumption
+    · exact g.acc_nodup
+
+/-- `queueChPool.Get()` makes a fresh channel (`New`) -/
+theorem inv_newChan {s : St} (h : Inv s) (p : Nat) (hp : p < s.np) (hpc : (s.prods p).pc = .create) :
+    Inv (setPc (newChan s) p (.los s.nch)) := by
+  have g := h.g
+  refine ⟨?_, ?_, ?_⟩
+  · intro q hq
+    have hq' : q < s.nq := hq
+    have hQ := h.q q hq'
+    apply hQ.frame
+    · rfl
+    · show s.nch ≤ s.nch + 1; omega
+    · exact Iff.rfl
+    · exact fun _ x => x
+    · have := holders_upd s (setPc (newChan s) p (.los s.nch)) p q hp rfl
+        (by intro i hi; simp [hi])
+      simpa [hpc] using this
+    · intro _
+      have : (s.qs q).ch ≠ s.nch := Nat.ne_of_lt hQ.ch_lt
+      simp [this]
+  · intro i hi
+    have hi' : i < s.np := hi
+    by_cases hip : i = p
+    · subst hip
+      constructor
+      · intro q hq; simp [PcQ] at hq
+      · intro c hc
+        simp [PcC] at hc; subst hc
+        refine ⟨by simp, ?_, by simp, ?_⟩
+        · intro hin; have := g.pool_lt _ hin; simp at this
+        · intro q hq _ heq
+          have hq0 : q < s.nq := hq
+          have := (h.q q hq0).ch_lt
+          simp at heq; omega
+      · intro q hq; simp at hq
+      · intro q r hc; simp at hc
+    · apply PInv.frame (h.p i hi')
+      · simp [hip]
+      · exact Nat.le_refl _
+      · intro q _; rfl
+      · show s.nch ≤ s.nch + 1; omega
+      · intro c _ hin; exact hin
+      · intro c hc
+        have := ((h.p i hi').pc_c c hc).1
+        have : c ≠ s.nch := Nat.ne_of_lt this
+        simp [this]
+      · intro c _ q hq he heq; exact ⟨hq, he, heq⟩
+      · intro q _; rfl
+  · apply g.frame
+    · rfl
+    · intro k q hm; exact hm
+    · intro q; rfl
+    · intro q; rfl
+    · intro q he; exact he
+    · exact pool_lt_of g (by show s.nch ≤ s.nch + 1; omega) (fun _ x => x)
+    · exact g.pool_nodup
+    · apply pool_empty_of g (fun _ x => x)
+      intro c hc
+      have : c ≠ s.nch := Nat.ne_of_lt (g.pool_lt c hc)
+      simp [this]
+    · intro i i' hi hi' c hc hc'
+      have hi0 : i < s.np := hi
+      have hi0' : i' < s.np := hi'
+      simp only [setPc_prods] at hc hc'
+      by_cases hip : i = p
+      · by_cases hip' : i' = p
+        · rw [hip, hip']
+        · subst hip
+          simp [PcC] at hc; subst hc
+          simp [hip'] at hc'
+          have := ((h.p i' hi0').pc_c _ hc').1
+          omega
+      · by_cases hip' : i' = p
+        · subst hip'
+          simp [PcC] at hc'; subst hc'
+          simp [hip] at hc
+          have := ((h.p i hi0).pc_c _ hc).1
+          omega
+        · simp [hip] at hc; simp [hip'] at hc'
+          exact g.held_uniq i i' hi0 hi0' c hc hc'
+    · refine addref_uniq_of g ?_ ?_
+      · rfl
+      intro i q hi hq
+      simp only [setPc_prods] at hq
+      by_cases hip : i = p
+      · subst hip; simp at hq
+      · simpa [hip] using hq
+    · refine main_frame g ?_ ?_ ?_
+      · rfl
+      · rfl
+      intro k
+      refine pending_frame ?_ ?_
+      · rfl
+      intro q hm
+      refine ⟨rfl, ?_⟩
+      have := (h.q q (g.map_lt k q hm).1).ch_lt
+      have : (s.qs q).ch ≠ s.nch := Nat.ne_of_lt this
+      simp [this]
+    · refine acc_frame g ?_ ?_ ?_ ?_
+      · rfl
+      · exact Nat.le_refl _
+      · intro t _; simp only [setPc_prods]; by_cases htp : t = p
+        · subst htp; simp
+        · simp [htp]
+      · intro t _ hE; simp only [setPc_prods]; by_cases htp : t = p
+        · subst htp; rw [hpc] at hE; exact absurd hE (by simp [Enqueued])
+        · simpa [htp] using hE
     · exact g.acc_nodup
 
 end DaeVerif.C13.TQ
